@@ -122,6 +122,14 @@ def run(ctx):
         res = ctx.tlc_expect_ok("Mask", "Mask_repaired.cfg", timeout=1500, deadlock=False, overrides={"MaxLen": "3"})
         vlib.log("spec Mask_repaired.cfg (D13 off, repaired loop acceptable on every table): %d states, %.0fs"
                  % (res.distinct, res.wall))
+    # every match of the engine (n = -1) is rewritten: the mutant "first match only when the text starts with an anchor"
+    mut0 = ctx.tlc("Mask", "Mask_mutant_allmatches.cfg", timeout=300, deadlock=False, workers=4,
+                   name="Mask/mutant M_AllMatches (expected violation)")
+    if mut0.ok or mut0.violated != "ReturnsAcceptable":
+        raise vlib.Infra("mutant M_AllMatches=FALSE was not rejected by TLC (violated=%s)" % mut0.violated)
+    vlib.log("spec Mask_mutant_allmatches.cfg (first match only for anchored text): rejected by TLC (ReturnsAcceptable, "
+             "%d-state counterexample)" % len(mut0.trace))
+    model["M_AllMatches"] = {"mutant_rejected": True, "mutant_trace_len": len(mut0.trace)}
     # the do_if dimension: evaluate-once mechanism accepted, its mutant (re-evaluation per value on the partially
     # masked event) rejected -- a spec-mutant run: TLC MUST find the violation, otherwise the model is blind to it
     res = ctx.tlc_expect_ok("MaskDoIf", "MaskDoIf_quick.cfg", timeout=300, deadlock=False,
